@@ -441,6 +441,29 @@ class StmtMixin:
                                 pass
                 if isinstance(n, ast.Call):
                     self.call_modifies(n, st, objs, fields)
+                    if isinstance(n.func, ast.Attribute) and n.func.attr == "append" \
+                            and isinstance(n.func.value, ast.Name) and n.func.value.id in st.env:
+                        cur = st.env[n.func.value.id]
+                        if isinstance(cur, VList) and not cur.items:
+                            from .iomodel import chunklist_new
+                            st.env[n.func.value.id] = chunklist_new(self, st)
+                            cur = st.env[n.func.value.id]
+                            # dry run of the body to learn the element kind of what is appended
+                            sub = st.fork()
+                            n_obl, lc, cc = len(self.obls), self.loop_counter, dict(self.call_counter)
+                            try:
+                                for s2, _oc in self.exec_block(body, sub):
+                                    k2 = s2.hmeta[s2.objs[cur.oid]["obj"]]
+                                    if not s2.objs[cur.oid].get("fresh", True):
+                                        st.objs[cur.oid]["obj"] = self.new_obj(st, k2["kind"], k2.get("dtype"), "chunks")
+                                        break
+                            except OutOfSubset:
+                                pass
+                            finally:
+                                del self.obls[n_obl:]
+                                self.loop_counter, self.call_counter = lc, cc
+                        if isinstance(cur, VObj) and cur.cls == "ChunkList":
+                            names.add(n.func.value.id)
         return names, objs, fields
 
     def quiet_ev(self, node, st):
@@ -501,7 +524,24 @@ class StmtMixin:
         if isinstance(v, VArr):
             # the variable may be rebound to another view of the same kind: keep object, havoc geometry
             return v
+        if isinstance(v, VObj) and v.cls in ("FileIO",):
+            fields = {k: self.havoc_value(x, st, k) for k, x in st.objs[v.oid].items()}
+            return VObj(self.new_oid(st, fields), v.cls, v.file)
+        if isinstance(v, VObj) and v.cls == "ChunkList":
+            f = st.objs[v.oid]
+            self.havoc_obj(st, f["obj"], "cl")
+            f["n"] = VInt(smt.fresh("chunks_n"))
+            st.assume(f["n"].t >= 0)
+            return v
         return v
+
+    def cover(self, st, label, line):
+        from .state import Obligation
+        if self.inline_depth:
+            return
+        name = f"{self.cur_func}/cover:{label}[{self.cur_case}]"
+        self.obls.append(Obligation(name, "cover", list(st.pc), z3.BoolVal(True), self.cur_func, line, "C", label,
+                                    case=self.cur_case))
 
     def check_invs(self, st, spec: LoopSpec, kind, lid, var, line):
         for (label, expr) in spec.invariants:
@@ -536,6 +576,7 @@ class StmtMixin:
             kk = smt.fresh("it")
             body_st.assume(z3.And(kk >= 0, i == lo + kk * step, i < hi))
         self.assume_invs(body_st, spec)
+        self.cover(body_st, f"loop-body#{lid}", line)
         exits = []
         save = self.loop_counter
         if self.inline_depth == 0:
@@ -623,6 +664,7 @@ class StmtMixin:
         after = body_st.fork()
         c = self.to_bool(self.ev(s.test, body_st), line)
         body_st.assume(c)
+        self.cover(body_st, f"loop-body#{lid}", line)
         exits = []
         save = self.loop_counter
         if self.inline_depth == 0:
